@@ -268,7 +268,8 @@ func NewRequest(method, host, path string, query url.Values, contentType string,
 	if host == "" {
 		host = "idp.example"
 	}
-	target := "https://" + host + path
+	// the URL handed to httptest must be parseable; the Host header itself may be any byte string
+	target := "https://placeholder.invalid" + path
 	if len(query) > 0 {
 		target += "?" + query.Encode()
 	}
